@@ -131,7 +131,25 @@ def parse_under(types, text):
     return doc
 
 
+class _Leave(Exception):
+    pass
+
+
 def after_context_errors(types, text):
+    from mistletoe import Document, block_token, span_token
+    errs = _after_context_errors(types, text, 'normal exit')
+    # the context is also left when an exception propagates out of the with block
+    try:
+        R = _renderer_for(types)
+        with R(*types):
+            Document(text)
+            raise _Leave()
+    except _Leave:
+        pass
+    return errs + _after_context_errors(types, text, 'exit by exception')
+
+
+def _after_context_errors(types, text, how):
     from mistletoe import Document, block_token, span_token
     errs = []
     names = {t.__name__ for t in types}
@@ -140,15 +158,17 @@ def after_context_errors(types, text):
     while stack:
         t = stack.pop()
         if type(t).__name__ in names:
-            errs.append('custom token %s recognised outside the renderer context' % type(t).__name__)
+            errs.append('custom token %s recognised outside the renderer context (%s)' % (type(t).__name__, how))
         if t.children:
             stack.extend(t.children)
     want_s = [getattr(span_token, n) for n in span_token.__all__]
     want_b = [getattr(block_token, n) for n in block_token.__all__]
     if span_token._token_types != want_s or any(a is not b for a, b in zip(span_token._token_types, want_s)):
-        errs.append('span token list not restored: %r' % [c.__name__ for c in span_token._token_types])
+        errs.append('span token list not restored (%s): %r' % (how, [c.__name__ for c in span_token._token_types]))
+        span_token.reset_tokens()
     if block_token._token_types != want_b:
-        errs.append('block token list not restored')
+        errs.append('block token list not restored (%s)' % how)
+        block_token.reset_tokens()
     return errs
 
 
